@@ -161,6 +161,21 @@ Section Sets.
       lra.
   Qed.
 
+  (** ** the lower bound GJK never tests on its relative-progress exit (the "duality gap"):
+         with v = -search_direction the current closest point of the simplex and w = p - q the
+         support point just obtained, every pair of points is at least (v.w)/|v| apart.  The
+         distance the loop reports on that exit is |v|, so its excess over the true distance is
+         at most |v| - (v.w)/|v| -- a quantity of the final state, not bounded by the code. *)
+  Theorem support_lower_bound d p q a b :
+    is_support A d p -> is_support B (vneg d) q -> A a -> B b ->
+    - dot d (vsub p q) <= norm d * norm (vsub a b).
+  Proof.
+    intros HA HB Ha Hb.
+    pose proof (support_pair_bound d p q a b HA HB Ha Hb) as Hs.
+    pose proof (cauchy_schwarz_abs d (vsub a b)) as Hcs.
+    pose proof (Rle_abs (- dot d (vsub a b))) as Hab. rewrite Rabs_Ropp in Hab. lra.
+  Qed.
+
   (** the driver hands every step support points of the two sets, so all rows stay related and
       the carried squared length stays that of the direction, along every execution *)
   Theorem distance_loop_invariant (sA sB : V3R -> V3R) tol maxd san :
